@@ -103,7 +103,19 @@ func runCheck(repo, verif, prop, tier string, workers int, noReplay bool) int {
 	}
 	runs := spec.Quick
 	if tier == "thorough" && len(spec.Thorough) > 0 {
-		runs = spec.Thorough
+		// the thorough tier is the thorough runs plus every quick run that is not among
+		// them (what the quick tier detects, the thorough tier detects too)
+		runs = append([]HRun{}, spec.Thorough...)
+		key := func(r HRun) string { b, _ := json.Marshal([]any{r.Pkg, r.Fn, r.Params, r.Sched, r.Preempt, r.Race}); return string(b) }
+		have := map[string]bool{}
+		for _, r := range runs {
+			have[key(r)] = true
+		}
+		for _, r := range spec.Quick {
+			if !have[key(r)] {
+				runs = append(runs, r)
+			}
+		}
 	}
 	seed := 0
 	fmt.Sscan(os.Getenv("VERIF_SEED"), &seed)
@@ -262,9 +274,14 @@ func runCheck(repo, verif, prop, tier string, workers int, noReplay bool) int {
 				defer func() { <-sem }()
 				rp := writeReplay(rdir, prop, tier, o.v, o.run, knownIDs)
 				o.replayPath = rp
-				tries := 1
+				// sequential counterexamples are deterministic except for Go's randomised map
+				// iteration (e.g. the order in which a flush writes buckets decides the file
+				// layout; the engine iterates in insertion order): a few tries
+				tries := 8
 				if o.v.Kind == "race" {
 					tries = 25 // free-running goroutines under the native race detector
+				} else if o.v.Kind == "deadlock" || o.run.Sched {
+					tries = 2
 				}
 				for t := 0; t < tries && !o.reproduced; t++ {
 					// races: first under the recorded schedule (the replay runtime hides its own
